@@ -16,6 +16,7 @@ const (
 	mA = 0
 	mB = 1
 	mC = 2
+	mD = 3 // pseudo module: an instance of D whose instantiation FAILED after it had written into A's table
 )
 
 var modNames = [3]string{"A", "B", "C"}
@@ -27,13 +28,14 @@ const (
 	fBk   // B's function k, reference created by B
 	fBimp // reference created by B to its IMPORT of A.g (wazevo: pointer into B's module context; interpreter: B's copy of the record)
 	fCc   // C's function c
+	fDd   // function d of D, written into A.tab[0] by D's ACTIVE element segment before D's instantiation failed
 	nFns
 )
 
-var fnNames = [nFns]string{"null", "A.g", "B.k", "B.imp(A.g)", "C.c"}
+var fnNames = [nFns]string{"null", "A.g", "B.k", "B.imp(A.g)", "C.c", "D.d(failed instantiation)"}
 
 // owner of the memory of a reference (the instance whose module engine allocated the record)
-var fnOwner = [nFns]int{-1, mA, mB, mB, mC}
+var fnOwner = [nFns]int{-1, mA, mB, mB, mC, mD}
 
 // slots
 const (
@@ -144,7 +146,29 @@ const (
 	kGC
 	kReenter // call X.reenter: the host function it calls performs a close while X's call is outstanding
 	kStore
+	kFailInst // instantiate a module D that imports A.tab, writes its own function into it with an active element segment, and then FAILS
 )
+
+// how the instantiation of D fails (op.X) and through which API it is attempted (op.A)
+const (
+	failStartTrap = iota // start function executes unreachable
+	failDataOOB          // an active data segment is out of bounds
+	failStartExit        // start function calls a host function that closes the module with an exit code and panics with sys.ExitError (what proc_exit does)
+	nFailKinds
+)
+
+const (
+	viaKeptCompiled = iota // Runtime.InstantiateModule on a CompiledModule the host keeps (code stays registered)
+	viaInstantiate         // Runtime.InstantiateWithConfig: wazero closes the compiled module itself when instantiation fails
+	nVias
+)
+
+var failKindNames = [nFailKinds]string{"start-function-traps", "data-segment-out-of-bounds", "start-function-exits"}
+var viaNames = [nVias]string{"InstantiateModule(kept CompiledModule)", "InstantiateWithConfig(bytes)"}
+
+// failWrites[kind]: does the element segment take effect before that failure? Calibrated against the tree at start-up
+// (the spec says yes for all three; this tree applies data segments before element segments).
+var failWrites = [nFailKinds]bool{true, true, true}
 
 // close actions usable from inside a host function
 const (
@@ -219,6 +243,8 @@ func (o op) String() string {
 			return fmt.Sprintf("store %s -> %s (guest: %s.%s)", fnNames[d.Fn], slotNames[d.Slot], modNames[d.Exec], d.Put)
 		}
 		return fmt.Sprintf("store %s -> %s (host: %s.%s() -> %s.%s(ref))", fnNames[d.Fn], slotNames[d.Slot], modNames[d.Src], d.Get, modNames[slotHolder[d.Slot]], d.Put)
+	case kFailInst:
+		return fmt.Sprintf("instantiate-failing D{elem A.tab[0]=d; %s} via %s", failKindNames[o.X], viaNames[o.A])
 	}
 	return "?"
 }
@@ -247,6 +273,11 @@ func allOps() []op {
 	}
 	for i := range storeDefs {
 		o = append(o, op{K: kStore, X: i})
+	}
+	for k := 0; k < nFailKinds; k++ {
+		for v := 0; v < nVias; v++ {
+			o = append(o, op{K: kFailInst, X: k, A: v})
+		}
 	}
 	return o
 }
@@ -299,6 +330,10 @@ func (s state) enabled(o op) bool {
 			return s.usable(d.Exec)
 		}
 		return s.usable(d.Src) && s.usable(slotHolder[d.Slot])
+	case kFailInst:
+		// A must be registered (the import resolves), runtime and engine must be open: then the instantiation fails
+		// for the designed reason, after the import of A.tab was resolved
+		return s.Inst[mA] == instOpen && !s.RtClosed && !s.CacheClosed
 	}
 	return false
 }
@@ -355,6 +390,13 @@ func (s state) apply(o op) state {
 	case kStore:
 		d := storeDefs[o.X]
 		n.Slots[d.Slot] = d.Fn
+	case kFailInst:
+		if failWrites[o.X] {
+			n.Slots[sAt] = fDd
+		}
+		// (with viaInstantiate wazero deletes D's compiled module from the engine; this is deliberately not tracked in
+		// the "stale engine slot" bit: "..., instantiate-fresh-modules" is still executed after it as a transition,
+		// and freed records are clobbered regardless of whether the code is still mapped)
 	}
 	return n
 }
@@ -365,8 +407,8 @@ func (s state) apply(o op) state {
 // the runtime's module list (open instances while the runtime is open... an open instance stays registered),
 // host handles (not dropped), and the retention edges wazero maintains: B -> A (function import, table import),
 // A -> B (B is registered in the exported table's involvingModuleInstances). Raw references in slots are NOT edges.
-func (s state) reachable() [3]bool {
-	var r [3]bool
+func (s state) reachable() [4]bool {
+	var r [4]bool
 	for x := 0; x < 3; x++ {
 		if s.Inst[x] == instNone {
 			continue
@@ -378,6 +420,9 @@ func (s state) reachable() [3]bool {
 	if s.Inst[mB] != instNone && (r[mA] || r[mB]) {
 		r[mA], r[mB] = true, true
 	}
+	// a failed importer of A.tab stays registered in the table's involvingModuleInstances (an import edge exists):
+	// it lives as long as the table, i.e. as long as A
+	r[mD] = r[mA]
 	return r
 }
 
